@@ -204,13 +204,16 @@ def forward_direct(ctx, algopy, A, prog, arg, X):
     return prog.f(A, O.wrap(ctx, algopy, arg, X))
 
 
-def h_prog(ctx, pname, D, P):
+def h_prog(ctx, pname, D, P, route='replay'):
+    """route='replay': record at an unrelated point / degree, re-evaluate the graph on the curve,
+    then sweep; route='direct': record on the curve itself and sweep immediately (the values and
+    saved buffer contents of the RECORDING run are what the sweep sees)"""
     algopy = symx.load_algopy()
     prog = get_prog(pname)
     arg, X = make_curve(ctx, prog, 'x', D, P)
     A = Namespace(algopy, make_consts(ctx, prog))
     x = O.wrap(ctx, algopy, arg, X)
-    if any(t.startswith('fac:') for t in prog.tags):
+    if route == 'direct' or any(t.startswith('fac:') for t in prog.tags):
         cg, fx, fy = record(ctx, algopy, A, prog, x)
     else:
         # record at an unrelated point / degree, then re-evaluate the graph on the curve
@@ -331,6 +334,17 @@ def units(tier, seed):
     if tier == 'quick':
         for pn in ['exp', 'x*x', 'sin', 'square', 'reciprocal', 'negative', 'x*x[::-1]', 'expm1', 'logit', 'erf', 'dawsn', 'hyperu', 'polygamma1', 'sqrt', 'log', 'absolute']:
             out.append(Unit('C03/%s/D3,P1' % pn, 'symx.props.c03', 'h_prog', {'pname': pn, 'D': 3, 'P': 1}, dict(opts)))
+    # sweep immediately after recording (no re-evaluation in between)
+    for prog in PR.catalogue():
+        if 'slow' in prog.tags or any(t.startswith('fac:') for t in prog.tags):
+            continue
+        if tier == 'quick' and prog.group not in ('buffer', 'index', 'reduce', 'shape', 'dot', 'comp', 'pow'):
+            continue
+        if prog.name in ('sum(axis=0)', 'sum(square,axis=0)'):
+            continue     # known finding (pb_sum argument order), reported once by the plain programs
+        Pp = 1 if ('clip' in prog.tags or prog.name in ('absolute', 'sign')) else (1 if tier == 'quick' else 2)
+        out.append(Unit('C03/direct:%s/D2,P%d' % (prog.name, Pp), 'symx.props.c03', 'h_prog',
+                        {'pname': prog.name, 'D': 2, 'P': Pp, 'route': 'direct'}, dict(opts)))
     # fan-out: the input is used again by nodes recorded after / before the program's own nodes
     for prog in PR.catalogue():
         if 'slow' in prog.tags or prog.group in ('factor', 'fft', 'comp', 'special') or 'halfangle' in prog.tags:
